@@ -376,13 +376,14 @@ fn position_part(ctx: &mut Ctx) {
 
 // ------------------------------------------------------------------ (c) spellings
 
-const SPELL: [&str; 44] = [
+const SPELL: [&str; 47] = [
     "(+ .n :v)", "(+ :v :v)", "(concat .k :w)", "(concat :w .k)", "(push .l @m2 :v)", "(push [] @m2 .k)", "(get . \"k\")", "(take .l 1)", "(sub .l 0 1)", "(? .t 1 2)",
     "(? .t \"a\" \"b\")", "(default .zz 4)", "(map .l (+ . :v))", "(filter .l (> . :v))", "(and .t true)", "(or false .t)", "(= .k :w)", "(< 1 .n)", "(len .)", "(keys .)",
     "(concat \"a\" \"b\" .k)", "(+ 1 2 .n)", "(* .n 2.5)", "(- .n)", "(push .l [1, 2] {\"a\": 1})", "(push [] null true false)", "(set \"q\" .n (+ :q 1))", "(define \"d\" .k (concat @d @d))",
     "(| .l (len .))", "(join (push [] .k :w) \"-\")", "(extract_regex_group .k \"(a)\" 1)", "(fold .l 0 (+ .so_far .value))", "(zip .l .l)", "(put {} .k .n)", "(push [] .n#0 .l#0)",
     "(sort_by .l (len .))", "(range 3)", "(push [] -1 1.5 1e2)", "(stringify .l)", "(group_by .l (stringify .))",
     // pipes that start at `.` (the dot sugar writes them `(.| f g)`): the parents of the later stages must not move
+    "(take . 2)", "(size .)", "(map . (len .))",
     "(| . .l (push [] ^^.k ^))", "(| . .n (+ . ^^.n))", "(| . (+ .n 1) (push [] . ^ ^^.k))", "(map .l (| . (+ . 1) (push [] . ^ ^^ ^^^.k)))",
 ];
 
@@ -437,8 +438,12 @@ fn spelling_part(ctx: &mut Ctx) {
             continue;
         }
         let e: E = p(t);
-        for (ri, rec) in RECS.iter().enumerate() {
+        // besides the records: inputs that are themselves a non-ASCII string / a list of such (what `.` is matters for
+        // the spellings that start at `.`)
+        const MORE_INPUTS: [&str; 2] = ["\"h\u{e9}llo\u{1f603}\"", "[\"\u{e9}\", {\"k\": \"\u{20ac}\"}]"];
+        for (ri, rec) in RECS.iter().chain(MORE_INPUTS.iter()).enumerate() {
             let mut args: Vec<String> = SETS.iter().map(|s| s.to_string()).collect();
+            args.push("--utf8-strings".into());
             args.push(format!("--select={}=c", expr::show(&e)));
             for (i, (_, st)) in sts.iter().enumerate() {
                 args.push(format!("--select={}=s{i}", expr::show_with(&e, st)));
